@@ -11,7 +11,7 @@ import ShVerif.Base.Hex
   OR-accumulator.
 
   Layer B (small typed fragments with a semantics, related to layer A by proved embedding
-  theorems in Proofs/C04.lean): arithmetic expressions, `[[ ]]` expressions, double-quoted
+  theorems in Proofs/C04Bridge.lean): arithmetic expressions, `[[ ]]` expressions, double-quoted
   literals, nested subshells.
 
   Tree layout produced by harness/c04.go (`c04Dump`), kids in fixed positions, absent = `nil` node:
